@@ -1363,7 +1363,8 @@ Hwrite(int32 access_id, int32 length, const void *data)
     /* check for a "new" element and make it appendable if so.
        Does this mean every element is by default appendable? */
     if (access_rec->new_elem == TRUE) {
-        Hsetlength(access_id, length); /* make the initial chunk of data */
+        if (Hsetlength(access_id, length) == FAIL) /* make the initial chunk of data */
+            HGOTO_ERROR(DFE_WRITEERROR, FAIL);
         access_rec->appendable = TRUE; /* make it appendable */
     }                                  /* end if */
 
@@ -1520,6 +1521,9 @@ Hendaccess(int32 access_id)
     /* if special elt, call special function */
     if (access_rec->special) {
         ret_value = (*access_rec->special_func->endaccess)(access_rec);
+        /* the special routine has disposed of the access record, also when it failed:
+           releasing it once more would hand the same record to two later users */
+        access_rec = NULL;
         goto done;
     } /* end if */
 
